@@ -208,7 +208,7 @@ def run(run):
                 run.sample(dict(console_stdin=payload[:400], answered=len(expected)))
         # ---- thorough: native fuzzing of the query path
         if not quick:
-            fz = os.path.join(C.VERIF, "harness")
+            fz = C.HARNESS_DIR
             env = dict(C.GOENV, GOFLAGS="-mod=mod")
             rc, out = C.sh(["go", "test", "-tags", "verif", "-run", "^$", "-fuzz", "FuzzQuery", "-fuzztime", "120s", "."], cwd=fz, env=env, timeout=900)
             run.extra["fuzz_tail"] = out[-600:]
